@@ -203,6 +203,8 @@ class World:
                 except Exception as e:
                     # the model keeps the half-made substructure when its fix_structure raises; the implementation drops it
                     raise
+            elif k == 'subh':
+                self.others.insert(0, m.substructure(list(op[1]), recalculate_hydrogens=False))
             elif k == 'and':
                 self.others.insert(0, m & list(op[1]))
             elif k == 'minus':
@@ -239,6 +241,10 @@ class World:
                 log, fixed = m._Standardize__standardize([(StubPattern(n, mm), {1: (dch, None)}, ((1, 2, bo),), [], False)], True)
                 if fixed:
                     m.fix_stereo()
+            elif k == 'explicify':          # search only (not modelled): in-place standardisation with a selective flush
+                m.explicify_hydrogens()
+            elif k == 'implicify':
+                m.implicify_hydrogens()
             elif k == 'set_name':
                 m.name = f'n{op[1]}'
             elif k == 'set_meta':
@@ -274,6 +280,8 @@ def op_term(op):
         return 'OCopy'
     if k == 'sub':
         return 'OSub ' + lst(list(op[1]), zraw)
+    if k == 'subh':
+        return 'OSubH ' + lst(list(op[1]), zraw)
     if k == 'and':
         return 'OAnd ' + lst(list(op[1]), zraw)
     if k == 'minus':
@@ -453,7 +461,7 @@ EXTRA = [('add_atom', 6, 1, False, 2), ('add_atom', 8, 0, True, 7), ('add_bond',
          ('add_bond', 1, 3, 5), ('delete_atom', 99), ('delete_bond', 1, 99), ('delete_bond', 99, 1), ('remap', ((1, 2),)),
          ('remap', ((1, 2), (2, 1))), ('remap', ((1, 7), (2, 7))), ('remap', ((50, 60),)), ('union', False, False), ('union', False, True),
          ('sub', ()), ('sub', (1, 77)), ('sub', (2, 1, 3)), ('and', (1, 2)), ('and', ()), ('minus', (1,)), ('minus', (1, 2, 3, 4)), ('minus', (77,)),
-         ('minus', ()), ('split',), ('aug', (1,), 1), ('aug', (1,), 3), ('aug', (2,), 0), ('aug', (), 1), ('aug', (1, 77), 1), ('flush', False, False), ('flush', False, True), ('set_charge', 1, 5),
+         ('minus', ()), ('split',), ('subh', (1, 2)), ('subh', ()), ('subh', (1, 77)), ('subh', (1, 2, 3, 4)), ('aug', (1,), 1), ('aug', (1,), 3), ('aug', (2,), 0), ('aug', (), 1), ('aug', (1, 77), 1), ('flush', False, False), ('flush', False, True), ('set_charge', 1, 5),
          ('set_charge', 99, 0), ('set_radical', 2, True), ('patch', 1, 2, 2, 1), ('patch', 1, 3, 1, 0), ('patch', 1, 2, 8, 0),
          ('patch', 1, 99, 1, 0), ('set_name', 3), ('set_meta', 1, 2), ('set_meta', 2, 5), ('read', ('sssr',)), ('read', ('rings_count',)),
          ('read', ('bonds_count', 'skin_graph', 'molecular_charge')), ('enter',), ('exit_exn',), ('exit_ok',), ('copy',), ('swap',)]
@@ -664,7 +672,7 @@ def random_op(rng, world):
             sel = sel + (max(atoms) + 7,)
         if rng.random() < 0.25 and len(world.others) <= 1:
             return ('split',)
-        which = rng.choice(['and', 'minus', 'aug'])
+        which = rng.choice(['and', 'minus', 'aug', 'subh'])
         return (which, sel) if which != 'aug' else ('aug', sel, rng.randint(0, 3))
     if k == 'read':
         names = rng.sample(sorted(TRACKED), rng.randint(1, 3))
@@ -939,11 +947,11 @@ def expected_exception(world, op):
         return 'ValueError' if bad else None
     if k == 'enter' and in_transaction(m):
         return 'OtherError'      # RuntimeError('nested transactions are not supported')
-    if k in ('union', 'copy', 'sub', 'and', 'minus', 'aug', 'split') and (in_transaction(m) or (k == 'union' and in_transaction(world.others[0]))):
+    if k in ('union', 'copy', 'sub', 'subh', 'and', 'minus', 'aug', 'split') and (in_transaction(m) or (k == 'union' and in_transaction(world.others[0]))):
         return '*'       # objects made from the intermediate state of an open transaction: outside the contract
     if k == 'union':
         return 'ValueError' if not op[1] and atoms.keys() & world.others[0]._atoms.keys() else None
-    if k in ('sub', 'and'):
+    if k in ('sub', 'and', 'subh'):
         return 'ValueError' if not op[1] or set(op[1]) - atoms.keys() else None
     if k == 'minus':
         return 'ValueError' if set(op[1]) - atoms.keys() or not (atoms.keys() - set(op[1])) else None
@@ -1040,6 +1048,26 @@ class SearchHook:
         for x, d in self.watch:
             if deep(x) != d:
                 self.findings.append((i, 'independence', f'{op} on one molecule changed another live molecule (made by {self.origin.get(id(x), "reader")})'))
+        if op[0] == 'subh' and e is None and len(world.others) == self.n_others + 1:
+            # substructure(.., recalculate_hydrogens=False): the hydrogen counts are those of the source by design, so the rebuilt
+            # molecule is no oracle unless whole components were taken; the stereo labels, however, must be re-validated on the cut
+            new = world.others[0]
+            self.origin[id(new)] = 'substructure (kept hydrogens)'
+            comps = comp_snapshot(m)
+            whole = comps is not None and all(c <= set(new._atoms) or c.isdisjoint(new._atoms) for c in comps)
+            if not whole or id(m) in self.tainted or in_transaction(m):
+                self.tainted.add(id(new))
+            ref = clone(new)
+            try:
+                ref.fix_stereo()
+                want = comp_snapshot(ref)
+                got = comp_snapshot(new)
+                if want is not None and got is not None and {c: v[1] for c, v in want.items()} != {c: v[1] for c, v in got.items()}:
+                    self.findings.append((i, 'stereo-cut', f'{op}: the labels of the substructure are not those fix_stereo leaves on it: '
+                                                         f'{[v[1] for v in got.values()]!r} vs {[v[1] for v in want.values()]!r}'))
+                str(new)
+            except Exception as ex:  # noqa
+                self.findings.append((i, 'stereo-cut', f'{op}: the substructure cannot be written / re-validated: {type(ex).__name__}'))
         if op[0] in ('copy', 'sub', 'and', 'minus', 'aug') or (op[0] == 'union' and op[2]):
             if e is None and len(world.others) == self.n_others + 1:
                 new = world.others[0]
@@ -1061,7 +1089,7 @@ class SearchHook:
         if e is None and id(m) not in self.tainted and op[0] not in ('swap', 'exit_exn') and (op[0] == 'exit_ok' or not self.pre_txn):
             for det in stereo_locality(self.pre_comp, comp_snapshot(m)):
                 self.findings.append((i, 'stereo-locality', f'{op}: {det}'))
-            if (op[0] in ('sub', 'copy', 'and', 'minus', 'aug') or (op[0] == 'union' and op[2])) and len(world.others) == self.n_others + 1:
+            if (op[0] in ('sub', 'subh', 'copy', 'and', 'minus', 'aug') or (op[0] == 'union' and op[2])) and len(world.others) == self.n_others + 1:
                 for det in stereo_locality(self.pre_comp, comp_snapshot(world.others[0])):
                     self.findings.append((i, 'stereo-locality', f'{op} (the new molecule): {det}'))
             if op[0] == 'split':
@@ -1296,6 +1324,10 @@ def search_stereo_and_reactions(ck):
                               {'smiles': smi}, det, 'labels as read', 'the reader',
                               replay_py=f'from chython import smiles\nm = smiles({smi!r}); print({{n: a.stereo for n, a in m.atoms()}}); m.flush_cache(); '
                                         f'm.fix_structure(); m.fix_stereo(); print({{n: a.stereo for n, a in m.atoms()}})')
+    # cuts through stereo elements with the hydrogens kept (recalculate_hydrogens=False): the labels must still be re-validated
+    cuts = [READ_STR, ('subh', (1, 2, 3, 5)), ('subh', (1, 2, 3, 4, 5, 6)), ('subh', (2, 3, 4)), ('sub', (1, 2, 3, 5)), ('copy',), ('swap',),
+            ('delete_atom', 6), ('add_bond', 4, 6, 1)]
+    seeds += [('raw:C[C@H](CF)CCl', 'CN', cuts), ('raw:F/C=C/Cl', 'CN', [READ_STR, ('subh', (2, 3, 4)), ('subh', (1, 2, 3)), ('subh', (1, 2, 3, 4)), ('copy',), ('swap',)])]
     for cur, other, alphabet in seeds:
         status = {}
         for d in range(0, 3):
@@ -1353,6 +1385,29 @@ def search_stereo_and_reactions(ck):
             report(ck, cur, other, list(ops[:i + 1]), [f for f in hook.findings if f[0] == i], [] if hook.findings else ff, 'transaction seeds (3 operations, nesting)')
         else:
             ck.count('search:txn3:clean-sequences')
+    # explicify_hydrogens / implicify_hydrogens: in-place edits with flush_cache(keep_sssr=True) (55af6a9: the stale
+    # not_special_connectivity was kept); after them the molecule must equal a rebuilt one and its own copy
+    for cur in ('S', 'CCO', 'C[C@H](F)O', 'C1CC1C', '[NH4+]', 'C[C@H](O)[C@H](Cl)[C@@H](C)O'):
+        for ops in itertools.product([READ_STR, ('read', ('not_special_connectivity', 'sssr')), ('explicify',), ('implicify',), ('add_atom', 1, 0, False, None)], repeat=3):
+            if not any(o[0] in ('explicify', 'implicify') for o in ops):
+                continue
+            w = fresh_world(cur, 'CN@40')
+            hook = SearchHook()
+            exns = run_ops(w, ops, hook)[0]
+            ff = final_findings(w, hook)
+            ck.case(('hydrogens-inplace', cur, ops), nontrivial=True)
+            try:
+                c = w.cur.copy()
+                if get_str(c) != get_str(w.cur) or deep(c) != deep(w.cur) or not (c == w.cur):
+                    ff.append((0, 'copy-differs', f'the molecule differs from its own copy: {get_str(w.cur)!r} vs {get_str(c)!r}'))
+            except Exception as ex:  # noqa
+                ff.append((0, 'copy-differs', f'copy / comparison raised {type(ex).__name__}'))
+            if any(exns) or hook.findings or ff:
+                hf = hook.findings + [(i, 'raises', f'{o} raised {e}') for i, (o, e) in enumerate(zip(ops, exns)) if e]
+                i = min(f[0] for f in hf) if hf else len(ops) - 1
+                report(ck, cur, 'CN@40', list(ops[:i + 1]), [f for f in hf if f[0] == i], [] if hf else ff, 'explicify / implicify')
+            else:
+                ck.count('search:hydrogens-inplace:clean-sequences')
     # renumbering a cage whose SSSR is a choice (known finding remap-ring-marks-sssr-choice)
     for cur, other, ops in (('C1CC2CC1C2', 'CN@10', (('remap', ((1, 3), (3, 1))),)), ('C1CC2CC1C2', 'CN@10', (('remap', ((1, 9),)),))):
         w = fresh_world(cur, other)
